@@ -192,6 +192,21 @@ Theorem C08_refit_equals_direct_forecaster :
 Proof. exact refit_equals_direct_forecaster. Qed.
 Print Assumptions C08_refit_equals_direct_forecaster.
 
+(* the horizon object given to the tuner's fit is the one that reaches the winner's fit: the call is
+   the regenerated refit call (Site.v) on the whole series with that very horizon - not a horizon
+   derived from it (e.g. made relative to the end of the series) - and the search does not depend on it *)
+Theorem C08_refit_passes_the_given_horizon :
+  forall XV tm yv xv metric gib asc F P apply_params respond cutoff_after base sp st cands fhabs t,
+  tuner_fit XV tm yv xv metric gib asc F P apply_params respond cutoff_after base sp st cands true
+            fhabs = Ok t ->
+  let nn := match sp with SWindow _ c => n c | SSingle nn _ _ => nn end in
+  tn_calls XV P t = [gen_refit_call (y_at tm yv (zrange 0 nn 1)) (x_at XV tm xv (zrange 0 nn 1)) fhabs] /\
+  forall fh' t',
+    tuner_fit XV tm yv xv metric gib asc F P apply_params respond cutoff_after base sp st cands true
+              fh' = Ok t' -> tn_search XV P t' = tn_search XV P t.
+Proof. exact refit_passes_the_given_horizon. Qed.
+Print Assumptions C08_refit_passes_the_given_horizon.
+
 Theorem C08_no_refit_raises_not_fitted :
   forall XV tm yv xv metric gib asc F P apply_params respond cutoff_after base sp st cands fhabs t,
   tuner_fit XV tm yv xv metric gib asc F P apply_params respond cutoff_after base sp st cands false
